@@ -46,10 +46,10 @@ not speak about it.
 
 Calibration (unchanged tree):
 
-* ``sample(b, 0)`` raises ZeroDivisionError (``math.log(..)/k``) — genuine, PENDING.
+* ``sample(b, 0)`` raised ZeroDivisionError (``math.log(..)/k``) — genuine; repaired in /repo (3c51c4c), see FIXED.
 * ``sample(b, k > len(b))`` raises ValueError instead of returning all of b —
   contradicts the statement, PENDING (the pinned test-suite expects the error).
-* ``choices(b, 0)`` raises ``ValueError: min() arg is an empty sequence`` — PENDING.
+* ``choices(b, 0)`` raised ``ValueError: min() arg is an empty sequence`` — genuine; repaired in /repo (3c51c4c), see FIXED.
 * no oracle corrections were necessary (no false alarms seen).
 """
 from __future__ import annotations
@@ -96,12 +96,15 @@ CASE_TIMEOUT = 120
 
 # genuine defects seen on the unchanged tree (see /verif/findings_proposed/C49.md)
 PENDING = {
-    "sample:k==0:ZeroDivisionError@bag/random.py:_sample_map_partitions":
-        "bag.random.sample(b, 0) raises ZeroDivisionError (math.log(rnd.random()) / k) instead of returning []",
     "sample:k>len(b):ValueError@bag/random.py:_finalize_sample":
         "bag.random.sample(b, k) with k > len(b) raises ValueError('Sample larger than population') instead of returning all of b",
+}
+# reported from the pinned tree and since repaired in /repo (commit 3c51c4c); the labels must not reappear
+FIXED = {
+    "sample:k==0:ZeroDivisionError@bag/random.py:_sample_map_partitions":
+        "bag.random.sample(b, 0) raised ZeroDivisionError (math.log(rnd.random()) / k) instead of returning []",
     "choices:k==0:ValueError@bag/random.py:_sample_with_replacement_map_partitions":
-        "bag.random.choices(b, 0) raises ValueError (min() of empty sequence) instead of returning []",
+        "bag.random.choices(b, 0) raised ValueError (min() of empty sequence) instead of returning []",
 }
 
 SPLITS = (None, 2, 3, 8)
